@@ -189,6 +189,18 @@ class SemScn:
             ch = gw.remote_exec(F.close_inside)
             res["close-inside"] = ch.receive(timeout=10)
             ch.waitclose(10)
+            # --- ... also after the initiating side closed its end first ---------
+            rep = gw.newchannel()
+            ch = gw.remote_exec("rep = channel.receive()\ntry:\n    channel.receive()\nexcept EOFError:\n    pass\nfor how in ('plain', 'error', 'file'):\n    try:\n        if how == 'plain':\n            channel.close()\n        elif how == 'error':\n            channel.close('some error')\n        else:\n            channel.makefile('w', proxyclose=True).close()\n        rep.send((how, 'accepted'))\n    except OSError as e:\n        rep.send((how, 'refused'))\nrep.close()")
+            ch.send(rep)
+            ch.close()
+            got = []
+            try:
+                for _ in range(3):
+                    got.append(rep.receive(timeout=10))
+            except BaseException as e:  # noqa: BLE001
+                got.append(("EXC", type(e).__name__))
+            res["close-inside-after-peer-close"] = got
             # --- module ----------------------------------------------------------
             import checks.aux_c06_module_loader as L
 
@@ -249,6 +261,9 @@ class SemScn:
         ci = r["close-inside"]
         if not (isinstance(ci, tuple) and ci[0] == "refused"):
             return V("close-inside", f"channel.close() from inside remote_exec was not refused: {ci}")
+        cip = r["close-inside-after-peer-close"]
+        if cip != [("plain", "refused"), ("error", "refused"), ("file", "refused")]:
+            return V("close-inside", f"after the initiating side closed its end, close() from inside the still running remote_exec: {cip}")
         for mode in ("ok", "raise"):
             first, second, mfile = r[f"module-{mode}"]
             if first != ("module", "__channelexec__"):
